@@ -106,8 +106,10 @@ def run_one(args):
         done = {'adders': 0}
 
         def make_cb(tag_box):
-            def cb(message):
-                received.append((tag_box[0], message.method.get('consumer_tag')))
+            def cb(*args):
+                # (message) or, with to_tuple=True, (body, channel, method, properties)
+                method = args[2] if len(args) == 4 else args[0].method
+                received.append((tag_box[0], method.get('consumer_tag')))
             return cb
 
         def adder(seq, idx):
@@ -155,7 +157,7 @@ def run_one(args):
                         break
                     amqpstorm.channel.time.sleep(0.005)
                 if ch._consumer_callbacks:
-                    ch.start_consuming()
+                    ch.start_consuming(to_tuple=bool(sc.get('to_tuple')))
                 out['consumer_returned'] = True
             except KeyError as why:
                 out['consumer_keyerror'] = repr(why)
@@ -608,7 +610,7 @@ def check(rep):
     for _ in range(150 if not thorough else 3000):
         sc = {'adders': [[('consume', 'ct1'), ('consume-backlog', 'bt2')]] + ([[('consume-backlog', 'bt3')]] if rng.random() < 0.4 else []),
               'stopper': None, 'broker_cancels': 0, 'feeds': rng.randint(0, 3), 'consumer_thread': True,
-              'p_preempt': rng.choice([0.3, 0.5]), 'fair_time': True}
+              'p_preempt': rng.choice([0.3, 0.5]), 'fair_time': True, 'to_tuple': rng.random() < 0.5}
         jobs.append((sc, rng.randrange(1 << 30)))
     lines, expect, owner = [], [], []
     for idx, ((sc, seed), r) in enumerate(zip(jobs, par.pmap(run_one, jobs))):
